@@ -5,6 +5,8 @@
  * casefile: one case per line  "<n> <c> <scaling> <dec> <tail> <mseed> <L> s2_1 .. s2_L"
  *   (spectra and shapes come out of TLC: Pca.tla section Spectral; scaling/decade/tail/seed are drawn by the check)
  *
+ * Data magnitude: dec runs over -8..6 for scalings 0 / -1 (which do not normalise the magnitude; with the 1e+-3 paired run 1e-11..1e9)
+ * and over 0..3 for scalings 1..5 (smaller magnitudes fall under the library's zero-scale guard: C10/C18 territory).
  * For each case the data are X = U diag(sigma) V' + 1 offset' with sigma_k = sqrt(s2_k) * 10^dec (plus an optional
  * closely spaced tail below 0.1 sigma_L), U (n x r) orthonormal and orthogonal to the ones vector, V (c x r)
  * orthonormal, both from seeded Gaussian matrices by Gram-Schmidt QR with re-orthogonalisation in long double:
@@ -231,9 +233,8 @@ static int child(void *arg)
     DelPCAModel(&m2); DelMatrix(&x2); free(Q);
   }
   { /* PCA(cX) against PCA(X): same loadings, same explained variances, scores in the same directions */
-    /* shrinking is only in-quantifier where no scale guard applies (scalings 0, -1); with centring (scaling 0) the column sums of cX must
-     * also stay clear of MatrixColAverage's absolute zero test |sum| < 1e-6 (a preprocessing matter, C10): offsets are >= 0.1*10^dec */
-    int cexps[2] = {3, -3}; int nce = (scaling == -1 || (scaling == 0 && cs->dec >= -1)) ? 2 : 1;
+    /* shrinking is only in-quantifier where no scale guard applies: scalings 0 and -1 (the options that do not normalise the magnitude) */
+    int cexps[2] = {3, -3}; int nce = (scaling == -1 || scaling == 0) ? 2 : 1;
     for(int ci = 0; ci < nce; ci++){
       double cf = pow(10.0, cexps[ci]);
       matrix *x2; NewMatrix(&x2, n, c); for(int i = 0; i < n; i++) for(int j = 0; j < c; j++) x2->data[i][j] = cf * x->data[i][j];
